@@ -47,6 +47,7 @@ structure Ent where
   extUrl : Option Str         -- `external_url` when the attribute exists
   attrs : List (String × AttrVal)
   parent : Option Nat
+  filename : Str := []        -- `.filename` = name of the source file the entity is in (round 6: warnings)
   deriving Repr, Inhabited
 
 structure Project where
